@@ -364,6 +364,12 @@ func observeModule(c *Chain, ctx sdk.Context, m string) interface{} {
 				closing = append(closing, []interface{}{int64(binary.LittleEndian.Uint64(key[1:9])), l})
 			}
 			it.Close()
+			// by height: the store keeps this index under a little-endian key, so its own order is not the order of the heights
+			// (nothing reads it in order: the end-blocker looks up the current height); heights around a power of 256 would
+			// otherwise line up differently on a chain whose heights are shifted by the one block of the export convention
+			sort.SliceStable(closing, func(i, j int) bool {
+				return closing[i].([]interface{})[0].(int64) < closing[j].([]interface{})[0].(int64)
+			})
 		}
 		tot, err := k.GetTotalCollateral(ctx)
 		pp := k.GetLockedPoolParams(ctx)
